@@ -1,4 +1,5 @@
 import Ecal.Model.Interp
+import Ecal.Model.InterpPristine
 /-!
 # C14 — string interpolation evaluates only the literal's own expressions, once
 
@@ -216,7 +217,12 @@ theorem self_reproducing_diverges (fuel : Nat) :
   | succ n ih =>
     have h : loop (fun _ => [123,123,99,125,125]) (n + 1) [123,123,99,125,125]
         = loop (fun _ => [123,123,99,125,125]) n [123,123,99,125,125] := by
-      rw [loop]; decide +revert
-    sorry
+      rw [loop]
+      have h1 : getInfix [123,123,99,125,125] = some (some [99]) := by decide
+      have h2 : replaceFirst (123 :: 123 :: [99] ++ [125, 125]) [123,123,99,125,125]
+          ([123,123,99,125,125].length + 1) [123,123,99,125,125] = [123,123,99,125,125] := by decide
+      simp only [h1]
+      rw [if_neg (by decide), h2]
+    rw [h, ih]
 
 end Ecal.Props.C14
